@@ -217,7 +217,7 @@ def program_of(chunk):
     return "\n".join(lines)
 
 
-def run_matrix(v, binary, built, label, per_program=250):
+def run_matrix(v, binary, built, label, per_program=250, extra=None):
     """runs every call: first in programs of per_program calls; a program that dies pins the call in flight and
     its remaining calls are rerun one per program, so the number of rounds does not depend on how many calls die"""
     results = {}       # id(call) -> line
@@ -244,7 +244,7 @@ def run_matrix(v, binary, built, label, per_program=250):
         return seen, ended
 
     chunks = [built[i:i + per_program] for i in range(0, len(built), per_program)]
-    cases = [{"id": f"m_{k}", "files": {"/v/main.lay": program_of(chunk)}, "main": "/v/main.lay", "stack_mb": 64} for k, chunk in enumerate(chunks)]
+    cases = [dict({"id": f"m_{k}", "files": {"/v/main.lay": program_of(chunk)}, "main": "/v/main.lay", "stack_mb": 64}, **(extra or {})) for k, chunk in enumerate(chunks)]
     res = vlib.run_batch(binary, cases, per_case_timeout=120)
     singles = []
     for k, chunk in enumerate(chunks):
@@ -258,7 +258,7 @@ def run_matrix(v, binary, built, label, per_program=250):
                 singles += chunk[done + 1:]
             else:
                 crashes.append((chunk[-1], r))
-    cases = [{"id": f"s_{k}", "files": {"/v/main.lay": program_of([c])}, "main": "/v/main.lay", "stack_mb": 64} for k, c in enumerate(singles)]
+    cases = [dict({"id": f"s_{k}", "files": {"/v/main.lay": program_of([c])}, "main": "/v/main.lay", "stack_mb": 64}, **(extra or {})) for k, c in enumerate(singles)]
     res = vlib.run_batch(binary, cases, per_case_timeout=60) if cases else {}
     for k, c in enumerate(singles):
         r = res[f"s_{k}"]
@@ -491,9 +491,16 @@ def run(pid, tier, replay=None):
         excases = exit_cases(dump, calls, rnd)
     pats, trusted = calibrate(builds[0][1])
     v.notes["gate_messages_learnt"] = {"trusted": trusted, "patterns": {k: len(p) for k, p in pats.items()}}
-    for label, binary in builds:
-        results, crashes = run_matrix(v, binary, built, label)
-        for c in built:
+    # the calls whose body runs are also made under a collection at every allocation: the temporaries of a native
+    # (and the error the interpreter builds for it) must survive a collection at any point
+    matrix_runs = [(label, binary, built, None) for label, binary in builds]
+    if not replay:
+        body_calls = [c for c in built if c["verdict"] == "body"]
+        sample = body_calls if tier == "thorough" else random.Random(vlib.seed()).sample(body_calls, min(25000, len(body_calls)))
+        matrix_runs.append((builds[0][0] + "+gc", builds[0][1], sample, {"gc": {"every": 1, "force_full": True}}))
+    for label, binary, built_here, extra in matrix_runs:
+        results, crashes = run_matrix(v, binary, built_here, label, extra=extra)
+        for c in built_here:
             line = results.get(id(c))
             if line is None:
                 raise vlib.ToolError(f"no result for call {c['src']}")
@@ -514,6 +521,8 @@ def run(pid, tier, replay=None):
                 continue
             v.violation(f"[{label}] {c['src']} ends the process: status {r_.get('status')} panic={str(r_.get('panic'))[:200]} stderr={r_.get('stderr', '')[-200:]!r}",
                         {"call": c, "build": label, "observed": {"status": r_.get("status"), "panic": r_.get("panic"), "stderr": r_.get("stderr", "")[-600:]}})
+        if extra:
+            continue            # the collection schedule run covers the call matrix only
         # exit(): every accepted call ends the process with a code, every refused one is an error
         cases = [{"id": f"x{i}", "files": {"/v/main.lay": HEADER + f'try {{ {e["src"]}; }} catch e {{ print("#~ err", e.message); }}\nprint("#~ end");'}, "main": "/v/main.lay"}
                  for i, e in enumerate(excases)]
@@ -573,7 +582,7 @@ def run(pid, tier, replay=None):
                                     {"id": "blocking:" + bid, "source": src, "expect": {"contract": True}, "build": label})
     v.cov["evaluations"] = judged
     v.cov["distinct_nontrivial"] = len({c["src"] for c in built}) + len(fams)
-    v.cov["traces_validated_against_impl"] = len(built) * len(builds)
+    v.cov["traces_validated_against_impl"] = sum(len(b) for _, _, b, _ in matrix_runs)
     v.cov["rule"] = ("call matrix: one evaluation = one call (native x argument kinds enumerated by TLC on Natives.tla, instantiated with concrete "
                      "values) run on the VM and judged against the specification's verdict; families: one evaluation = one program with an outcome "
                      "known by construction; non-trivial = distinct call source text / program")
@@ -582,7 +591,7 @@ def run(pid, tier, replay=None):
     v.notes["calls_run"] = len(built)
     v.notes["family_programs"] = len(fams)
     v.notes["verdicts"] = dict(collections.Counter(c["verdict"] for c in built))
-    v.notes["builds"] = [b for b, _ in builds]
+    v.notes["builds"] = [r[0] for r in matrix_runs]
     v.assumptions = ["the natives table is what `lvh natives` (verif hook) reads from the VM's global module and standard library modules",
                      "the gate's verdict is observed through its error messages (<name> expected .. argument(s) / <name>'s parameter .. / todo)",
                      "index operators are only called with the operand count the syntax allows"]
